@@ -1,7 +1,8 @@
 (* C10 -- results are a pure function of frame data and the last call's arguments.  Statements only. *)
-From Coq Require Import List Bool Arith.
-From Forsys Require Import Model.Session Proofs.SessionProofs.
+From Coq Require Import List Bool Arith ZArith.
+From Forsys Require Import Model.PyList Model.Resample Model.Session Model.WriteBack Proofs.SessionProofs Proofs.WriteBackProofs.
 Import ListNotations.
+Close Scope Z_scope.
 
 (* for every history: what frame t reports is decided by the last (re)build of its force matrix preceding its last solve and by
    that solve's arguments; it equals what a fresh object solved once reports *)
@@ -27,7 +28,48 @@ Example C10_example :
   forces (run 2 [BuildF 0 1; SolveS 0 2; BuildF 1 0; SolveS 1 0; SysVel 7; SolveS 0 3; BuildF 0 4]) 1 = Some (1, 0, 0).
 Proof. vm_compute. split; reflexivity. Qed.
 
+(* ---- write-back of a solve onto the mesh edges (fmatrix.py:326-341, Model/WriteBack.v), for every list of internal interfaces, every
+   sub-list used by the system, every solution vector, every earlier content m of the mesh edges *)
+(* the mesh edges of the i-th interface of the system carry the i-th entry of the solution *)
+Theorem C10_used_edges_carry_their_entry : forall (T : Type) (pick : Z * Z -> Z) (zero dflt : T) internal used xres m i element e,
+  positions_disjoint pick used -> nth_error used i = Some element -> In e (edges_to_use pick element) ->
+  write_back pick zero dflt internal used xres m e = nth i xres dflt.
+Proof. intros T. exact (@used_edges_carry_their_entry T). Qed.
+(* the mesh edges of an internal interface left out of the system (angle limit) carry zero, whatever an earlier solve left there *)
+Theorem C10_excluded_edges_are_zero : forall (T : Type) (pick : Z * Z -> Z) (zero dflt : T) internal used xres m be e,
+  In be internal -> ~ In (fst be) used -> In e (snd be) -> (forall element, In element used -> ~ In e (edges_to_use pick element)) ->
+  write_back pick zero dflt internal used xres m e = zero.
+Proof. intros T. exact (@excluded_edges_are_zero T). Qed.
+(* every other mesh edge (external interfaces) keeps its value *)
+Theorem C10_other_edges_unchanged : forall (T : Type) (pick : Z * Z -> Z) (zero dflt : T) internal used xres m e,
+  (forall element, In element used -> ~ In e (edges_to_use pick element)) ->
+  (forall be, In be internal -> ~ In (fst be) used -> ~ In e (snd be)) ->
+  write_back pick zero dflt internal used xres m e = m e.
+Proof. intros T. exact (@other_edges_unchanged T). Qed.
+(* what the mesh edges of the internal interfaces held before the solve does not matter *)
+Theorem C10_write_back_forgets_history : forall (T : Type) (pick : Z * Z -> Z) (zero dflt : T) internal used xres m1 m2 e,
+  positions_disjoint pick used ->
+  ((exists element, In element used /\ In e (edges_to_use pick element)) \/ (exists be, In be internal /\ ~ In (fst be) used /\ In e (snd be))) ->
+  write_back pick zero dflt internal used xres m1 e = write_back pick zero dflt internal used xres m2 e.
+Proof. intros T. exact (@write_back_forgets_history T). Qed.
+(* executable sufficient condition for the disjointness premise *)
+Theorem C10_nodup_picks_positions_disjoint : forall (pick : Z * Z -> Z) used,
+  NoDup (concat (map (edges_to_use pick) used)) -> positions_disjoint pick used.
+Proof. exact nodup_picks_positions_disjoint. Qed.
+
+(* two interfaces in the system, one excluded, one external mesh edge: stale values 7 vanish from the internal ones *)
+Example C10_write_back_example :
+  let pick := fun p : Z * Z => (fst p * 10 + snd p)%Z in
+  let W := write_back pick 0%Z (-1)%Z [([1; 2; 3], [12; 23]); ([3; 4], [34]); ([4; 5; 6], [45; 56])]%Z [[1; 2; 3]; [4; 5; 6]]%Z [100; 200]%Z (fun _ => 7%Z) in
+  map W [12; 23; 34; 45; 56; 99]%Z = [100; 100; 0; 200; 200; 7]%Z.
+Proof. vm_compute. reflexivity. Qed.
+
 Print Assumptions C10_history_independence.
 Print Assumptions C10_stores_keyed.
 Print Assumptions C10_pressure_token.
 Print Assumptions C10_pressure_matrix_token.
+Print Assumptions C10_used_edges_carry_their_entry.
+Print Assumptions C10_excluded_edges_are_zero.
+Print Assumptions C10_other_edges_unchanged.
+Print Assumptions C10_write_back_forgets_history.
+Print Assumptions C10_nodup_picks_positions_disjoint.
